@@ -35,7 +35,7 @@ pub fn main() {
     let mut executions = 0;
     // C14 under Miri: only the isolated task-set scenarios (whole simulations with many models and
     // queries are too slow to interpret in the quick tier).
-    let comp_only = prop.id == "C14";
+    let comp_only = prop.id == "C14" || prop.id == "C15";
     let mut done = 0;
     for ci in first..first + count * 60 {
         if done >= count {
